@@ -609,11 +609,41 @@ def analyse_construct(prog, F, W, fn):
         pol_ok = any(c.strip_all() is r or r in list(c.walk()) for (c, pol) in g)
         whatp = 'an edge is retained exactly when its endpoints are NOT within the hop bound'
         f = None
+        stale = []
+
+        def reach_leaf(leaf):
+            s_ = leaf.strip_all()
+            if s_ is r:
+                return ex.f_atom('reach')
+            v_ = ex.var_of(s_)
+            if v_ is not None:
+                defs_ = [(d, rhs) for (d, rhs) in ex.assignments_to(fn, v_) if rhs is not None or d.k != 'VarDecl']
+                if defs_ and all(rhs is not None and rhs.strip_all() is r for (d, rhs) in defs_):
+                    return ex.f_atom('reach')
+                if defs_ and any(rhs is not None and rhs.strip_all() is r for (d, rhs) in defs_):
+                    # the verdict has other sources than the search of this iteration
+                    for (d, rhs) in defs_:
+                        if rhs is None or rhs.strip_all() is r:
+                            continue
+                        src = stale_table_read(prog, fn, rhs, r)
+                        stale.append((d, rhs, src))
+                    return ex.f_atom('reach')
+            return None
         for (c, pol) in g:
-            ff = ex.formula(c, lambda leaf: ex.f_atom('reach') if leaf.strip_all() is r else None)
+            ff = ex.formula(c, reach_leaf)
             if ff is not None and ex.f_atoms(ff) == ['reach']:
                 f = ff if pol else ex.f_not(ff)
-        if f is None:
+        if stale and any(src for (_d, _rhs, src) in stale):
+            d, rhs, src = [x for x in stale if x[2]][0]
+            F.add('R15b', ae, fn, whatp, 'violation',
+                  'on some iterations the verdict is not the result of a search for the current edge but `%s` (line %d), read from `%s`, the '
+                  'distance table left behind by an earlier %s call for another target; %s, so vertices farther away than that '
+                  'earlier target still hold "unreached" and an edge whose endpoints are within the bound is retained (a short cycle '
+                  'survives)' % (rhs.text(50), d.line, src[0], 'is_bfs_reachable', src[1]), key='R15b|%s|stale-table' % fn.g)
+        elif stale:
+            F.add('R15b', ae, fn, whatp, 'undecided', 'the verdict `%s` (line %d) does not come from the search of this iteration' % (
+                stale[0][1].text(50), stale[0][0].line))
+        elif f is None:
             F.add('R15b', ae, fn, whatp, 'undecided', 'add_edge is not directly guarded by the reachability test')
         elif ex.f_eval(f, {'reach': False}) and not ex.f_eval(f, {'reach': True}):
             F.add('R15b', ae, fn, whatp, 'ok')
@@ -637,14 +667,17 @@ def analyse_construct(prog, F, W, fn):
             continue
         lam = a[2].strip_all()
         verdict = comparator_verdict(prog, W, lam)
+        vdetail = None
+        if verdict is None:
+            verdict, vdetail = comparator_by_orderings(prog, W, lam)
         okc = True
         if verdict == 'asc':
-            F.add('R15c', sc, fn, whatc, 'ok', 'comparator is W_G[a] < W_G[b]')
+            F.add('R15c', sc, fn, whatc, 'ok', vdetail or 'comparator is W_G[a] < W_G[b]')
         elif verdict in ('desc', 'other'):
-            F.add('R15c', sc, fn, whatc, 'violation', 'comparator orders the edges %s' % ('by decreasing weight' if verdict == 'desc' else 'not by their weight in the caller\'s map'),
+            F.add('R15c', sc, fn, whatc, 'violation', vdetail or ('comparator orders the edges %s' % ('by decreasing weight' if verdict == 'desc' else 'not by their weight in the caller\'s map')),
                   key='R15c|%s|comparator' % fn.g)
         else:
-            F.add('R15c', sc, fn, whatc, 'undecided', 'comparator not recognised')
+            F.add('R15c', sc, fn, whatc, 'undecided', 'comparator not recognised (%s)' % vdetail)
     if not okc:
         F.add('R15c', loop, fn, whatc, 'violation', 'the scanned sequence is not sorted before the scan', key='R15c|%s|no-sort' % fn.g)
 
@@ -718,6 +751,42 @@ def analyse_construct(prog, F, W, fn):
                   key='R05d|%s|unrecorded' % fn.g)
 
 
+def stale_table_read(prog, fn, rhs, reach_call):
+    """(table name, why incomplete) if rhs subscripts a container that is handed to the bounded search as an out-parameter and
+    that search leaves its main loop early; None otherwise"""
+    tables = set()
+    for d in rhs.walk():
+        if d.k == 'CXXOperatorCallExpr' and d.op == '[]' and len(d.c) == 3:
+            v = ex.var_of(d.c[1])
+            if v is not None:
+                tables.add(v)
+        if d.k == 'CXXMemberCallExpr' and d.callee and d.callee['name'] == 'at':
+            v = ex.var_of(d.object_arg())
+            if v is not None:
+                tables.add(v)
+    for i, a in enumerate(reach_call.args()):
+        v = ex.var_of(a)
+        if v is None or v not in tables:
+            continue
+        callee = prog.fn_of_fref(reach_call.callee_id) if reach_call.callee_id is not None else None
+        if callee is None or i >= len(callee.param_ids):
+            continue
+        pt = prog.type(prog.vars[callee.param_ids[i]]['ty']) or {}
+        if not pt.get('ref') or pt.get('const'):
+            continue
+        # does the search (or what it forwards to) leave its queue loop before the queue is empty?
+        for g_ in ex.reachable_functions(prog, [callee]):
+            for lp in g_.walk():
+                if lp.k in ('WhileStmt', 'ForStmt') and lp.cond is not None and any(
+                        x.k == 'CXXMemberCallExpr' and x.callee and x.callee['name'] == 'empty' for x in lp.cond.walk()):
+                    exits = [x for x in lp.body.walk() if x.k in ('ReturnStmt', 'BreakStmt')] if lp.body is not None else []
+                    exits = [x for x in exits if x.k == 'ReturnStmt' or x.enclosing('WhileStmt', 'ForStmt', 'DoStmt', 'CXXForRangeStmt') is lp]
+                    if exits:
+                        return (prog.vars[v]['name'], 'that search stops as soon as its own target is dequeued or the hop limit is hit (line %d of %s)' % (
+                            exits[0].line, g_.g))
+    return None
+
+
 def is_g_weight_read(W, n, cur_edge_vars):
     s = n.strip_all()
     if s.k == 'CallExpr' and s.callee and s.callee['g'] == 'boost::get' and len(s.args()) == 2:
@@ -725,6 +794,109 @@ def is_g_weight_read(W, n, cur_edge_vars):
     if s.k == 'CXXOperatorCallExpr' and s.op == '[]' and len(s.c) == 3:
         return atom(W.world(s.c[1])) == 'G' and not isinstance(W.world(s.c[1]), tuple) and ex.var_of(s.c[2]) in cur_edge_vars
     return False
+
+
+def comparator_by_orderings(prog, W, lam):
+    """general evaluation of a two-parameter comparator over the orderings of the two caller-map weights.  Handles several
+    return statements, locals holding the weights, and tolerance tests `abs(w1 - w2) > c` (atom 'far', which implies the weights
+    differ).  Returns (verdict, detail): 'asc' when the comparator is true whenever W[a] < W[b] and false whenever W[a] > W[b]
+    (any tie-break), 'desc', 'other' with a counterexample, or (None, why) when a leaf is outside the idiom table."""
+    import itertools
+    if lam.k != 'LambdaExpr':
+        return None, 'not a lambda'
+    for op in lam.j.get('lambda_ops', ()):
+        lf = prog.fn_of_fref(op)
+        if lf is None or len(lf.param_ids) != 2 or lf.body is None:
+            continue
+        a, b = lf.param_ids
+
+        def weight_of(e, depth=0):
+            s = e.strip_all()
+            if s.k == 'CXXOperatorCallExpr' and s.op == '[]' and len(s.c) == 3 and atom(W.world(s.c[1])) == 'G':
+                return ex.var_of(s.c[2])
+            if s.k == 'CallExpr' and s.callee and s.callee['g'] == 'boost::get' and len(s.args()) == 2 and atom(W.world(s.args()[0])) == 'G':
+                return ex.var_of(s.args()[1])
+            v = ex.var_of(s)
+            if v is not None and depth < 3:
+                d = ex.unique_def(lf, v)
+                if d is not None:
+                    return weight_of(d, depth + 1)
+            return None
+        notes = []
+
+        def atomize(leaf):
+            s = leaf.strip_all()
+            lt, gt = ex.f_atom('lt'), ex.f_atom('gt')
+            eq = ex.f_and(ex.f_not(lt), ex.f_not(gt))
+            if s.k == 'BinaryOperator' and s.op in ('<', '>', '<=', '>=', '==', '!='):
+                x, y = weight_of(s.c[0]), weight_of(s.c[1])
+                if (x, y) in ((a, b), (b, a)):
+                    l_, g_ = (lt, gt) if (x, y) == (a, b) else (gt, lt)
+                    return {'<': l_, '>': g_, '<=': ex.f_not(g_), '>=': ex.f_not(l_), '==': eq, '!=': ex.f_or(lt, gt)}[s.op]
+                # tolerance:  abs(w1 - w2) OP c   with a positive constant c
+                for (l0, r0, o0) in ((s.c[0], s.c[1], s.op), (s.c[1], s.c[0], {'<': '>', '>': '<', '<=': '>=', '>=': '<='}.get(s.op, s.op))):
+                    c0 = l0.strip_all()
+                    cval = r0.strip_all()
+                    cnum = cval.fvalue if getattr(cval, 'fvalue', None) is not None else cval.cv
+                    if c0.k == 'CallExpr' and c0.callee and c0.callee['name'] in ('abs', 'fabs') and c0.args() and cnum is not None:
+                        d0 = c0.args()[0].strip_all()
+                        if d0.k == 'BinaryOperator' and d0.op == '-' and {weight_of(d0.c[0]), weight_of(d0.c[1])} == {a, b}:
+                            if float(cnum) > 0 or (float(cnum) == 0 and o0 in ('<=', '>=')):
+                                notes.append((leaf, float(cnum)))
+                                far = ex.f_atom('far')
+                                return {'>': far, '>=': far, '<': ex.f_not(far), '<=': ex.f_not(far)}.get(o0)
+                            if float(cnum) == 0:
+                                return {'>': ex.f_or(lt, gt), '<': ex.FALSE}.get(o0)
+            return ex.f_atom(('free', leaf.i))
+        cfg = lf.cfg
+        total = ex.FALSE
+        parts = []
+        for r in ex.returns_of(lf):
+            if not r.c:
+                return None, 'return without value'
+            v = ex.formula(r.c[0], atomize)
+            if v is None:
+                return None, 'return value `%s` not understood' % r.c[0].text(40)
+            pc = ex.path_condition(cfg, r, atomize)
+            parts.append((pc, v))
+        if not parts:
+            return None, 'no return'
+        atoms = []
+        for (pc, v) in parts:
+            for x in ex.f_atoms(pc) + ex.f_atoms(v):
+                if x not in atoms:
+                    atoms.append(x)
+        if 'lt' not in atoms and 'gt' not in atoms:
+            return 'other', 'the comparator never compares the two weights of the caller\'s map'
+        if len(atoms) > 14:
+            return None, 'too many atoms'
+        asc = desc = True
+        cex = None
+        for vals in itertools.product((False, True), repeat=len(atoms)):
+            e0 = dict(zip(atoms, vals))
+            lt_, gt_ = e0.get('lt', False), e0.get('gt', False)
+            if lt_ and gt_:
+                continue
+            if e0.get('far') and not (lt_ or gt_):
+                continue
+            if not (lt_ or gt_):
+                continue
+            val = any(ex.f_eval(pc, e0) and ex.f_eval(v, e0) for (pc, v) in parts)
+            if (lt_ and not val) or (gt_ and val):
+                if asc:
+                    cex = dict(e0)
+                asc = False
+            if (gt_ and not val) or (lt_ and val):
+                desc = False
+        if asc:
+            return 'asc', 'true whenever W[a] < W[b], false whenever W[a] > W[b], for every valuation of the tie-break'
+        if desc:
+            return 'desc', 'orders by decreasing weight'
+        if cex is not None and 'far' in cex and not cex['far'] and notes:
+            return 'other', ('weights that differ by at most %g are treated as ties (`%s`) and ordered by something else: a heavier edge may be '
+                             'scanned before a lighter one' % (notes[0][1], notes[0][0].text(40)))
+        return 'other', 'for W[a] %s W[b] the comparator answers %s' % ('<' if cex and cex.get('lt') else '>', 'false' if cex and cex.get('lt') else 'true')
+    return None, 'no call operator'
 
 
 def comparator_verdict(prog, W, lam):
